@@ -493,13 +493,32 @@ impl<'a> Ovl<'a> {
             }
             "open" => {
                 let i = self.walk(w[1])?;
+                // "<access>[+<bits>]": access r | w | rw, bits t(runc) a(ppend) c(reat) x (excl); legacy "wt", "a"
                 let flags = match w[2] {
-                    "r" => libc::O_RDONLY,
-                    "w" => libc::O_WRONLY,
-                    "rw" => libc::O_RDWR,
                     "wt" => libc::O_WRONLY | libc::O_TRUNC,
                     "a" => libc::O_WRONLY | libc::O_APPEND,
-                    _ => panic!("bad open flags"),
+                    spec => {
+                        let (acc, bits) = match spec.split_once('+') {
+                            Some((a, b)) => (a, b),
+                            None => (spec, ""),
+                        };
+                        let mut f = match acc {
+                            "r" => libc::O_RDONLY,
+                            "w" => libc::O_WRONLY,
+                            "rw" => libc::O_RDWR,
+                            _ => panic!("bad open flags"),
+                        };
+                        for ch in bits.chars() {
+                            f |= match ch {
+                                't' => libc::O_TRUNC,
+                                'a' => libc::O_APPEND,
+                                'c' => libc::O_CREAT,
+                                'x' => libc::O_EXCL,
+                                _ => panic!("bad open flag bit"),
+                            };
+                        }
+                        f
+                    }
                 };
                 let (h, _, _) = self.fs.open(c, i, flags as u32, 0)?;
                 if let Some(h) = h {
